@@ -20,6 +20,11 @@ def mask_for(tok, gridtok):
         return fm.Mask.FLEX
     if tok == "nomask":
         return fm.Mask.NONE
+    if tok == "E0":
+        return np.ma.nomask
+    if tok == "E":
+        shape = {"g": (3, 2), "g2": (2, 3), "h": (4, 2)}[gridtok]
+        return np.zeros(shape, dtype=bool)
     if gridtok == "h":
         return H_M if tok == "M" else H_N
     canon = M_CANON if tok == "M" else N_CANON
@@ -54,7 +59,11 @@ def mask_tok(m, g):
         return "nomask"
     if m is None:
         return "none"
+    if m is np.ma.nomask:
+        return "E0"
     arr = np.asarray(m)
+    if arr.ndim > 0 and not arr.any():
+        return "E"
     gt = grid_tok(g)
     cands = {"M": mask_for("M", gt if gt in ("g", "g2", "h") else "g"),
              "N": mask_for("N", gt if gt in ("g", "g2", "h") else "g")}
